@@ -7,7 +7,7 @@ import vlib
 
 PAGES = [64, 128, 256, 4096]
 DBG_PAGES = [64, 128]          # assert-enabled builds (the meson configuration keeps asserts on)
-HUGE_PAGE = 1048576            # LEAF_VALS = 131070 > UINT16_MAX: known finding C02-ITER-UINT16 (implementation only)
+HUGE_PAGE = 1048576            # LEAF_VALS = 131070 > UINT16_MAX: must be rejected at compile time (fix 627c158)
 MAX_HEIGHT = 6
 
 
@@ -30,8 +30,6 @@ def build(ctx):
         jobs.append((p, ["-DZIX_BTREE_PAGE_SIZE=%d" % p, "-DNDEBUG"], ctx.path("drv_c01_%d" % p)))
     for p in DBG_PAGES:
         jobs.append((p, ["-DZIX_BTREE_PAGE_SIZE=%d" % p], ctx.path("drv_c01_%d_dbg" % p)))
-    if getattr(ctx, "bt_huge", False):
-        jobs.append((HUGE_PAGE, ["-DZIX_BTREE_PAGE_SIZE=%d" % HUGE_PAGE, "-DNDEBUG"], ctx.path("drv_c01_%d" % HUGE_PAGE)))
     with concurrent.futures.ThreadPoolExecutor(max_workers=8) as ex:
         futs = [ex.submit(ctx.build_driver, "drv_c01", ["btree.c", "allocator.c"], f, True, (), o) for (_, f, o) in jobs]
         for f in futs:
@@ -323,11 +321,27 @@ def sim_sizes(case):
     return mx
 
 
-def uint16_witness(ctx):
-    """known finding C02-ITER-UINT16, replayed on the implementation only: returns (reproduces, detail)"""
-    n, probe = 70000, 66000
-    case = "%d - %s f%d" % (HUGE_PAGE, " ".join("i%d.%d" % (k, k) for k in range(1, n + 1)), probe)
-    out = _run_driver(ctx, ctx.path("drv_c01_%d" % HUGE_PAGE), [case])[0]
+UINT16_N, UINT16_PROBE = 70000, 66000
+
+
+def uint16_case():
+    return "%d - %s f%d" % (HUGE_PAGE, " ".join("i%d.%d" % (k, k) for k in range(1, UINT16_N + 1)), UINT16_PROBE)
+
+
+def huge_page_check(ctx):
+    """fixed 627c158 (was C02-ITER-UINT16): iterator indexes are uint16_t, so the sources must refuse a page size whose
+    LEAF_VALS exceeds 65535.  Returns (ok, detail, impl_line): ok when the build is rejected, or when it is accepted
+    and the old witness (insert 1..70000, find 66000) nevertheless dereferences to the right element."""
+    exe = ctx.path("drv_c01_%d" % HUGE_PAGE)
+    try:
+        ctx.build_driver("drv_c01", ["btree.c", "allocator.c"], ["-DZIX_BTREE_PAGE_SIZE=%d" % HUGE_PAGE, "-DNDEBUG"], True, (), exe)
+    except vlib.BuildError as e:
+        msg = str(e)
+        if "static assertion failed" in msg or "static_assert" in msg or "_Static_assert" in msg:
+            return True, "page size %d (LEAF_VALS 131070) rejected at compile time by a static assertion" % HUGE_PAGE, None
+        return True, "page size %d does not build (no static assertion recognised in the diagnostics): %s" % (HUGE_PAGE, msg[-200:]), None
+    out = _run_driver(ctx, exe, [uint16_case()])[0]
     toks = [t for t in out.split(" || ")[0].split() if t.startswith("f:")]
     got = toks[0] if toks else out[:60]
-    return got != "f:SUCCESS:%d" % probe, "find(%d) after inserting 1..%d at page size %d -> %s" % (probe, n, HUGE_PAGE, got)
+    ok = got == "f:SUCCESS:%d" % UINT16_PROBE
+    return ok, "page size %d is accepted again; find(%d) after inserting 1..%d -> %s" % (HUGE_PAGE, UINT16_PROBE, UINT16_N, got), out
